@@ -117,6 +117,12 @@ def run(res):
                     "sessions": [{"ops": [["submit", i + 1] for i in range(len(p1))] + [["exit"]]},
                                  {"ops": [["submit", len(p1) + i + 1] for i in range(len(p2s))] + [["exit"]]}],
                     "schedule": lockstep.gen_schedule(rng, 600), "step_limit": 800, "_n2": len(p2s), "_n1": len(p1)})
+    # plot mode asked for together with disable_dependencies=True: the constructor has to refuse (C19_plot_without_
+    # dependencies_refused); an executor that is handed out all the same must still behave as plot mode
+    nodep = [{"mode": "exec", "kwargs": dict({"plot_dependency_graph": True, "disable_dependencies": True}, **extra_kw), "calls": p,
+              "ops": [["submit", i + 1] for i in range(len(p))] + [["exit"]], "schedule": lockstep.gen_schedule(rng, 400), "step_limit": 600}
+             for extra_kw in ({}, {"block_allocation": True, "max_workers": 1}, {"max_cores": 2})
+             for p in [[{"argspec": [["v", 1]], "kwspec": []}, {"argspec": [["v", 2]], "kwspec": []}]]]
     with core.Lock():
         gate = core.grep_gate()
         status = core.regen()
@@ -176,6 +182,18 @@ def run(res):
                 hits += 1
             else:
                 fails.append({"program": p, "why": why})
+    for c, r in zip(nodep, lockstep.run_cases(nodep)):
+        outc = r.get("outcomes", [])
+        if outc and outc[0][0] == "construct" and outc[0][-1] != "ok":
+            continue            # refused at construction
+        labels = {lab[0] for en, pick, lab in r.get("trace", [])}
+        if labels & {"spawn", "zsend", "body"} or not r.get("graphs"):
+            fails.append({"program": c["calls"], "kwargs": c["kwargs"],
+                          "why": "Executor(%s) was accepted and then %s" % (
+                              ", ".join("%s=%r" % kv for kv in c["kwargs"].items()),
+                              "executed the submitted calls (labels %r)" % sorted(labels & {"spawn", "zsend", "body"})
+                              if labels & {"spawn", "zsend", "body"} else "drew no graph")})
+    res.cov["plot_without_dependencies_cases"] = len(nodep)
     two_fail = None
     for c, r in zip(two, lockstep.run_cases(two)):
         gs = r.get("graphs") or []
